@@ -1364,11 +1364,20 @@ class Nexus(object):
             )
 
         # add dependent node `name` as a parent of each node in `depends_on`
+        _previous_children = list(_node.get_children())
         for _dep in depends_on:
             _node.add_child(self.get(_dep))
 
         # check for cycles
-        NodeCycleChecker(_node).run()
+        try:
+            NodeCycleChecker(_node).run()
+        except ValueError:
+            # a rejected dependency must leave the graph as it was
+            for _dep_node in set(self.get(_dep) for _dep in depends_on):
+                if _dep_node not in _previous_children:
+                    _node.remove_child(_dep_node)
+            _node._children = _previous_children
+            raise
 
     def get(self, node_name):
         """Retrieve a node by its name or ``None`` if no such node exists.
